@@ -152,12 +152,18 @@ func (ssc *defaultStatefulSetControl) ListRevisions(set *apps.StatefulSet) ([]*k
 		return nil, err
 	}
 	res := []*kubeapps.ControllerRevision{}
+	seen := map[string]bool{}
 	for _, item := range append(revisions.Items, revisinsToUpgrade.Items...) {
 		local := item
 		// revisions controlled by somebody else are not part of this set's history
 		if ref := metav1.GetControllerOfNoCopy(&local); ref != nil && ref.UID != set.UID {
 			continue
 		}
+		// an adopted revision carries both the selector labels and the upgrade marker and is in both lists
+		if seen[local.Name] {
+			continue
+		}
+		seen[local.Name] = true
 		res = append(res, &local)
 	}
 	return res, nil
